@@ -84,16 +84,18 @@ Section C07Stmts.
     forall (shs : list shell) f,
       (FSin is0 same f (unc_seg_shells same one_lit shs []) <->
        exists s l x, In s shs /\ In l (am s) /\ In x (exps s) /\ feq is0 same f (l, [(x, one_lit)])).
-  (* ... and no primitive is emitted twice: two different output shells never have the same momenta and equal exponents *)
+  (* ... and no primitive is emitted twice: two different output shells never carry the same momentum with equal exponents *)
   Definition unc_seg_shells_nodup_stmt : Prop :=
-    forall (shs : list shell) i j s t x y,
+    forall (shs : list shell) i j s t l x y,
       nth_error (unc_seg_shells same one_lit shs []) i = Some s ->
       nth_error (unc_seg_shells same one_lit shs []) j = Some t ->
-      am s = am t -> exps s = [x] -> exps t = [y] -> same x y = true -> i = j.
-  (* every output shell is a unit shell of some input shell *)
+      In l (am s) -> In l (am t) -> exps s = [x] -> exps t = [y] -> same x y = true -> i = j.
+  (* every output shell is a unit shell of some input shell, for a non-empty selection of that shell's momenta (all of them
+     unless a part was emitted before) *)
   Definition unc_seg_shells_shape_stmt : Prop :=
     forall (shs : list shell) u, In u (unc_seg_shells same one_lit shs []) ->
-      exists s x, In s shs /\ In x (exps s) /\ u = unit_shell one_lit s x.
+      exists s x ams, In s shs /\ In x (exps s) /\ ams <> [] /\ (forall l, In l ams -> In l (am s)) /\
+        u = unit_shell_am one_lit s ams x.
 End C07Stmts.
 
 (* optimize_general on rational coefficients: same linear span, never more non-zeros *)
